@@ -315,6 +315,39 @@ def _subst(name, subst):
     return name
 
 
+def limit_parse_types(ctx, prog, rule):
+    """the limits that feed normalisation are parsed with the type of their variant: a Double limit parsed as f32 (or
+    an integer limit through a float) shifts the range"""
+    f = prog.fn("limits::extract_limit")
+    ctx.fn_seen(f)
+    R = Resolver(f, max_depth=40)
+    want = {"Integer": "i64", "ScaledInteger": "i64", "Single": "f32", "Double": "f64"}
+    got = {}
+    for g, tr in [(f, lambda t: t)]:
+        for bi in g.cfg():
+            for st in g.blocks[bi]["stmts"]:
+                rv = st["rv"]
+                if rv["k"] == "aggregate" and rv["kind"].get("adt") == "record::RecordValue" and rv["ops"]:
+                    x = R.operand(rv["ops"][0])
+                    casts = []
+                    while True:
+                        x = strip(x)
+                        if x[0] == "cast":
+                            casts.append(x[1])
+                            x = x[2]
+                            continue
+                        break
+                    ty = None
+                    if x[0] == "call" and x[1].endswith("::parse") and len(x) > 4 and x[4]:
+                        ty = x[4][-1]
+                    elif x[0] == "call" and len(x) > 4 and x[4] and x[1] in prog.fns:
+                        ty = x[4][0]            # a generic parse helper instantiated with the target type
+                    got.setdefault(rv["kind"]["variant"], set()).add((ty, tuple(casts)))
+    ok = all(got.get(v) == {(t, ())} for v, t in want.items())
+    ctx.ob(rule, "limit-parse-types/extract_limit", ok, "limit values are parsed as %s (must be %s, without a cast in between)" % (
+        {k: sorted(v, key=str) for k, v in got.items()}, want))
+
+
 def type_ranges(ctx, prog, rule):
     f = prog.fn(P + "from_record_data_type")
     ctx.fn_seen(f)
